@@ -558,6 +558,14 @@ var importSets = [][]string{
 	{},
 }
 
+// lookalikeAnnotations are clearly other annotations (TestNG set-up / tear-down, Jackson, JAXB) whose names end in
+// "Test" / "Ignore".
+var lookalikeAnnotations = []string{"BeforeTest", "AfterTest", "JsonIgnore", "XmlIgnore"}
+
+// ordinary package names containing testdata / Testdata (the tool documents the exact spelling "testData" as an
+// exclusion; that spelling is never generated)
+var testdataPackages = []string{"com.acme.testdata", "io.demo.testdata.orders", "org.example.Testdata", "net.sample.Testdata.loader"}
+
 var testNameWords = []string{"Create", "Update", "Remove", "Parse", "Render", "Load", "Sum", "Route", "Expire", "Merge"}
 
 func (g *gen) testMethodName() string {
@@ -639,9 +647,14 @@ func (g *gen) composeTestClass(f *File, foreign []string, shared *mplan, twin *t
 	var nonTests []*mplan
 	for i, n := 0, g.weighted(0, 0, 1, 1, 2, 3); i < n; i++ {
 		m := &Method{Name: g.uniq(g.r.Pick([]string{"helperStep", "prepareData", "buildFixture", "doRound", "expectOutcome"})), Role: RoleHelper, Static: g.r.Chance(1, 3), Profile: "helper"}
-		if g.r.Chance(1, 6) {
+		switch k := g.r.Intn(12); {
+		case k < 2:
 			m.Annos = []Anno{{Name: "SuppressWarnings", Args: "(\"rawtypes\")"}}
 			m.AnnoLayout = "own-lines"
+		case k < 5:
+			// other annotations whose names merely END in Test / Ignore: the method is no test
+			m.Annos = []Anno{{Name: g.r.Pick(lookalikeAnnotations)}}
+			m.AnnoLayout = g.r.Pick([]string{"own-lines", "own-lines", "with-declaration"})
 		}
 		mp := &mplan{m: m, stmts: g.decorate(g.composeHelper(g.r.Chance(3, 5)), cp.sty)}
 		m.Calls = collect(mp.stmts) // lines are set when the file is rendered
@@ -672,9 +685,16 @@ func (g *gen) composeTestClass(f *File, foreign []string, shared *mplan, twin *t
 	}
 	for i, n := 0, g.weighted(0, 1, 1, 2); i < n; i++ {
 		m := &Method{Name: g.uniq(g.r.Pick([]string{"setUp", "tearDown", "dumpState", "waitABit", "initAll"})), Role: RoleOther, Profile: "other"}
-		if a := g.r.Pick([]string{"", "", "Before", "After", "BeforeClass", "BeforeEach", "Override", "Deprecated"}); a != "" {
+		if a := g.r.Pick([]string{"", "", "Before", "After", "BeforeClass", "BeforeEach", "Override", "Deprecated", "BeforeTest", "AfterTest", "JsonIgnore", "XmlIgnore"}); a != "" {
 			m.Annos = []Anno{{Name: a}}
-			m.AnnoLayout = "own-lines"
+			m.AnnoLayout = g.r.Pick([]string{"own-lines", "own-lines", "own-lines", "with-declaration"})
+			if g.r.Chance(1, 6) {
+				// two annotations, e.g. @Before @JsonIgnore
+				m.Annos = append(m.Annos, Anno{Name: g.r.Pick(lookalikeAnnotations)})
+				if m.Annos[0].Name == m.Annos[1].Name {
+					m.Annos = m.Annos[:1]
+				}
+			}
 		}
 		mp := &mplan{m: m, stmts: g.decorate(g.composeOther(), cp.sty)}
 		mp.header = g.r.Pick([]string{"public void", "void", "private void"}) + " " + m.Name + "()" + g.r.Pick([]string{"", " throws Exception"})
@@ -757,6 +777,9 @@ func Generate(r *run.Rand) *Tree {
 			pkgs = append(pkgs, p2)
 		}
 	}
+	if t.Layout != "flat" && g.r.Chance(1, 6) {
+		pkgs[g.r.Intn(len(pkgs))] = g.r.Pick(testdataPackages)
+	}
 	noPackage := t.Layout == "flat" && g.r.Chance(1, 4)
 	module := ""
 	if t.Layout == "maven" && g.r.Chance(1, 4) {
@@ -784,6 +807,10 @@ func Generate(r *run.Rand) *Tree {
 		} else {
 			f.Role = RoleTestByName
 			f.Class = base + g.r.Pick([]string{"Test", "Test", "Tests"})
+			if g.r.Chance(1, 7) {
+				// ordinary class names that contain TestData / Testdata
+				f.Class = g.r.Pick([]string{base + "TestDataTest", base + "TestDataTests", "Testdata" + base + "LoaderTests", base + "TestdataTest"})
+			}
 		}
 		switch t.Layout {
 		case "flat":
